@@ -258,6 +258,10 @@ def _c09(tier, seed):
             runs.append("H_C09_results(2,%d,%d)" % (kind, pack))
     runs.append("H_C09_results(3,0,0)")
     runs += ["H_C09_results(2,0,2)", "H_C09_results(2,2,2)", "H_C09_results(2,1,3)"]
+    # a clock that stands still or is set back while calls are outstanding: the calls' ids must stay distinct
+    runs += ["H_C09_clock(3,0,0,0)", "H_C09_clock(3,0,1,-1000000)", "H_C09_clock(2,2,0,0)", "H_C09_clock(3,1,1,0)"]
+    if not q:
+        runs += ["H_C09_clock(3,2,0,-1000000)", "H_C09_clock(3,0,2,0)", "H_C09_clock(3,0,0,-1000)"]
     if not q:
         runs += ["H_C09_results(2,0,3)", "H_C09_results(2,2,3)", "H_C09_results(2,1,2)"]
     if not q:
@@ -270,7 +274,7 @@ def _c09(tier, seed):
 
 def _c10(tier, seed):
     q = tier == "quick"
-    runs = ["H_C10_seqno()", "H_C10_acks(0)", "H_C10_acks(1)", "H_C10_order(2,0)", "H_C10_order(2,1000)", "H_C10_order(3,0)", "H_C10_order(3,1000)"]
+    runs = ["H_C10_seqno()", "H_C10_acks(0)", "H_C10_acks(1)", "H_C10_order(2,0)", "H_C10_order(2,1000)", "H_C10_order(3,0)", "H_C10_order(3,1000)", "H_C10_order(3,-1000000)"]
     if not q:
         runs += ["H_C10_order(4,0)", "H_C10_order(4,1000)", "H_C10_order(3,4)"]
     return [
